@@ -358,6 +358,15 @@ theorem noFaultX {κ : Type} (ks : KeySys κ) (io : FloatIO) :
       split
       · simp
       · exact bind_text_no_fault _ _ (noFaultX_otypeEntries ks io ih m _ _ _ _ _ h (cfOfG_goOK ks m h _)) k'
+  | .otypeX d ih, m, ind, h, k => by
+    simp only [fmtX]
+    split
+    · simp
+    · apply typeFinish_no_fault
+      intro k'
+      split
+      · simp
+      · exact bind_text_no_fault _ _ (noFaultX_otypeEntries ks io ih m _ _ _ _ _ h (cfOfG_goOK ks m h _)) k'
   | .obj name es, m, ind, h, k => by
     simp only [fmtX]
     apply bind_text_no_fault
